@@ -261,6 +261,9 @@ def psi_to_dec_and_ra(
 
     # Convert back to right-ascension and declination.
     # This is to distinguish between diametrically opposite directions.
+    # Rounding errors can push z slightly outside [-1, 1] when the circle passes
+    # through a celestial pole, which would result in NaN.
+    z = np.clip(z, -1., 1.)
     zen = np.arccos(z)
     azi = np.arctan2(y, x)
 
